@@ -958,3 +958,66 @@ Proof.
       length Z.of_nat Pos.of_succ_nat Z.ltb Z.compare Pos.compare Pos.compare_cont present flat_map reduce_val acc_val Z.leb last].
     intros E. injection E as E. lra.
 Qed.
+
+(* ================================================================== *)
+(* 8. what [reduce] means, operator by operator                         *)
+
+Theorem reduce_meaning op maxnan g :
+  ((maxnan < nmiss g)%Z -> reduce op maxnan g = None) /\
+  ((nmiss g <= maxnan)%Z ->
+     (op = 0%Z -> reduce op maxnan g = Some (lsum (present g))) /\
+     (op = 1%Z -> present g <> [] ->
+        reduce op maxnan g = Some (lsum (present g) / INR (length (present g)))) /\
+     (op = 2%Z -> present g <> [] ->
+        exists m, reduce op maxnan g = Some m /\ In m (present g) /\
+                  Forall (fun y => y <= m) (present g)) /\
+     (op = 3%Z -> present g <> [] ->
+        exists p v, present g = p ++ [v] /\ reduce op maxnan g = Some v)).
+Proof.
+  unfold reduce. split.
+  - intros H. destruct (Z.ltb_spec maxnan (nmiss g)); [reflexivity|lia].
+  - intros H. destruct (Z.ltb_spec maxnan (nmiss g)); [lia|].
+    repeat split.
+    + intros ->. reflexivity.
+    + intros -> Hp. unfold reduce_val. simpl. destruct (present g); [congruence|reflexivity].
+    + intros -> Hp. exists (lmax (present g)). split; [reflexivity|]. apply lmax_spec, Hp.
+    + intros -> Hp. destruct (exists_last Hp) as (p & v & E). exists p, v. split; [exact E|].
+      unfold reduce_val, acc_val. simpl. rewrite E, last_last. reflexivity.
+Qed.
+
+(* ================================================================== *)
+(* 9. concrete instances (non-vacuity of the hypotheses)                *)
+
+Definition ex_idx : list Z := [199501; 199501; 199502; 199503; 199503]%Z.
+Definition ex_xs : list (option R) := [Some (-1); None; Some (-2); Some 4; Some (-3)].
+
+Lemma ex_hyps :
+  length ex_idx = length ex_xs /\ (1 <= length ex_xs)%nat /\
+  Forall in_int32 ex_idx /\ nondecr ex_idx.
+Proof.
+  repeat split; try (simpl; lia).
+  repeat constructor; unfold in_int32; lia.
+Qed.
+
+Lemma ex_runs :
+  runs (combine ex_idx ex_xs) =
+  [(199501%Z, [Some (-1); None]); (199502%Z, [Some (-2)]); (199503%Z, [Some 4; Some (-3)])].
+Proof. reflexivity. Qed.
+
+(* max with maxnan = 1: the first group is [-1; missing], its maximum is -1 *)
+Lemma ex_max :
+  py_aggregate RN (agg_upd RN) 2 1 ex_idx ex_xs = DOk [Some (-1); Some (-2); Some 4].
+Proof.
+  destruct ex_hyps as (H1 & H2 & H3 & H4).
+  rewrite aggregate_spec by assumption. rewrite ex_runs.
+  cbv [map snd reduce nmiss filter is_none length Z.of_nat Pos.of_succ_nat Z.ltb Z.compare
+       Pos.compare Pos.compare_cont present flat_map app reduce_val acc_val Z.eqb Pos.eqb Z.leb lmax fold_left].
+  f_equal. f_equal. f_equal. f_equal. unfold Rmax. destruct (Rle_dec 4 (-3)); [lra|reflexivity].
+Qed.
+
+Lemma ex_within_maxnan :
+  Forall (fun kg => (nmiss (snd kg) <= 1)%Z) (runs (combine ex_idx ex_xs)).
+Proof. rewrite ex_runs. repeat constructor; cbv; discriminate. Qed.
+
+Lemma ex_decreasing : decreases_somewhere [199502; 199501; 199503]%Z.
+Proof. exists [], 199502%Z, 199501%Z, [199503%Z]. split; [reflexivity|lia]. Qed.
